@@ -78,6 +78,20 @@ pub fn emit_new(kind: &str, id: u64, parent: u64) {
     });
 }
 
+/// `New` for a frame over borrowed data: the names it defines are fixed for its lifetime and logged.
+pub fn emit_new_keys<'k>(kind: &str, id: u64, parent: u64, keys: impl Iterator<Item = crate::model::KStringCow<'k>>) {
+    if !enabled() {
+        return;
+    }
+    let keys: Vec<String> = keys.map(|k| format!("\"{}\"", esc(k.as_str()))).collect();
+    BUF.with(|b| {
+        b.borrow_mut().push(format!(
+            "{{\"e\":\"New\",\"id\":{id},\"kind\":\"{kind}\",\"parent\":{parent},\"keys\":[{}]}}",
+            keys.join(",")
+        ))
+    });
+}
+
 /// Start of a top-level render (nested renders of partials are part of it).
 pub fn begin() {
     if !enabled() {
